@@ -25,6 +25,7 @@ EXPLANATION = (
     ' (R6, shared with C05.R3) _ensure_lock reuses the lock only after comparing the event loops; a new lock records the loop and closes the old transport.'
     ' (R7) inventory of loop-bound attributes (lock, futures, timer handles): each is renewed by _ensure_lock or cancelled / cleared by _close_transport on a loop change.'
     ' (R8, shared with C06.R6) no timeout handle is orphaned or left armed when a request completes: a stale _timeout_mechanism would close the transport of the next request.'
+    ' (R9, shared with C08.R6) no loop callback schedules a method of the protocol object after completing the response future.'
 )
 
 
@@ -107,6 +108,9 @@ def check(ctx: Ctx, rep: Report):
     for o in _sub.obligations:
         rep.obligations.append(type(o)("C10.R8", o.key, o.where, o.what, o.status, o.detail))
     r5(ctx, rep, classes)
+    rep.rule("C10.R9", "no transport close is deferred past the completion of a request: it would close the transport the next request has just reused (shared with C08.R6)", 6)
+    from .proto import no_deferred_after_completion
+    no_deferred_after_completion(ctx, rep, "C10.R9")
     # ---- R1
     for fn in res.all_funcs():
         for n in res._own_nodes(fn):
